@@ -389,8 +389,8 @@ def _mexp(it, ctx, a, k):
     raise Undecided("math.exp")
 
 
-T["math.pi"] = VNum(z3.Real("pi"))
-T["math.inf"] = VAtom("float:inf")
+from .dom_real import PI as _PI
+T["math.pi"] = VNum(_PI)
 T["typing.Optional"] = VOpaque("typing.Optional")
 T["typing.Union"] = VOpaque("typing.Union")
 T["typing.Any"] = VOpaque("typing.Any")
